@@ -27,7 +27,7 @@ export VERIF_REPO="$wt" VERIF_BUILD="/verif/.build-alt-$id"
 (cd /verif && ./check "$id" quick) > "$dst/check_quick.txt" 2>&1; c=$?
 grep -E "^VIOLATION|signature=|^SUMMARY|^KNOWN|^ERROR" "$dst/check_quick.txt" | cut -c1-260 | head -12
 echo "check exit=$c  (stored in $dst)"
-for other in $5; do
+for other in ${5:-}; do
   (cd /verif && VERIF_BUILD="/verif/.build-alt-$id" ./check "$other" quick) > "$dst/check_quick_$other.txt" 2>&1; echo "also $other exit=$?"
   grep -E "signature=|^SUMMARY" "$dst/check_quick_$other.txt" | cut -c1-200 | head -4
 done
